@@ -50,6 +50,16 @@ Proof.
   destruct (explicit_key r); cbn [snd]; apply decide_dropped.
 Qed.
 
+(* the decision reads status, stream_id and request_id only: any two records
+   agreeing on those three (whatever else they carry: cancelled, method, ...)
+   are treated identically, in every sampler and counter state *)
+Lemma extras_irrelevant s c r r' :
+  s_status r = s_status r' -> s_stream r = s_stream r' -> s_request r = s_request r' ->
+  keep s c r = keep s c r'.
+Proof.
+  intros H1 H2 H3. unfold keep, is_error, explicit_key. now rewrite H1, H2, H3.
+Qed.
+
 Lemma run_in s : forall recs c r o,
   In (r, o) (combine recs (run_sampler s c recs)) -> exists c0, o = snd (keep s c0 r).
 Proof.
